@@ -97,6 +97,37 @@ theorem el_idempotent (s : Screen) (h : Option Nat) :
     try funext x
     by_cases h1 : y = s.cursor.y <;> simp [h1] <;> (try (intros; exfalso; omega))
 
+/-- strictly inside the scrolling region IND and RI are inverse cursor moves: no scroll, no cell, no dirty
+    mark, and the cursor comes back (`t ≤ y < b` for IND;RI, `t < y ≤ b` for RI;IND) -/
+theorem ind_ri_inverse (s : Screen) :
+    (topMargin s ≤ s.cursor.y → s.cursor.y < bottomMargin s → reverseIndex (index s) = s) ∧
+    (topMargin s < s.cursor.y → s.cursor.y ≤ bottomMargin s → index (reverseIndex s) = s) := by
+  constructor
+  · intro h1 h2
+    have e1 : (s.cursor.y == bottomMargin s) = false := by simp; omega
+    have m1 : topMargin (cursorDown s none) = topMargin s := rfl
+    have m2 : bottomMargin (cursorDown s none) = bottomMargin s := rfl
+    have y1 : (cursorDown s none).cursor.y = s.cursor.y + 1 := by
+      simp only [cursorDown, setCursorY, nz]; omega
+    have e2 : ((cursorDown s none).cursor.y == topMargin s) = false := by simp [y1]; omega
+    simp only [index, e1, Bool.false_eq_true, ↓reduceIte, reverseIndex, m1, e2]
+    have hy : max ((cursorDown s none).cursor.y - nz none) (topMargin s) = s.cursor.y := by
+      rw [y1]; simp only [nz]; omega
+    simp only [cursorUp, m1, hy]
+    rfl
+  · intro h1 h2
+    have e1 : (s.cursor.y == topMargin s) = false := by simp; omega
+    have m1 : topMargin (cursorUp s none) = topMargin s := rfl
+    have m2 : bottomMargin (cursorUp s none) = bottomMargin s := rfl
+    have y1 : (cursorUp s none).cursor.y = s.cursor.y - 1 := by
+      simp only [cursorUp, setCursorY, nz]; omega
+    have e2 : ((cursorUp s none).cursor.y == bottomMargin s) = false := by simp [y1]; omega
+    simp only [reverseIndex, e1, Bool.false_eq_true, ↓reduceIte, index, m2, e2]
+    have hy : min ((cursorUp s none).cursor.y + nz none) (bottomMargin s) = s.cursor.y := by
+      rw [y1]; simp only [nz]; omega
+    simp only [cursorDown, m2, hy]
+    rfl
+
 /-- SO / SI: idempotent, last one wins, nothing but the active-set flag changes -/
 theorem so_si_laws (s : Screen) :
     shiftOut (shiftOut s) = shiftOut s ∧ shiftIn (shiftIn s) = shiftIn s ∧
